@@ -149,6 +149,9 @@ def gen(tape: Tape, tier: str) -> dict:
     a2d = gen_values(tape, k2 * k2, dtype="f8").reshape(k2, k2)
     arrays.append(a2d)
     labels.append(m2)
+    # arrays[4]: bool, arrays[5]: datetime64 (scans view these as int8 / int64: the caller's arrays must stay untouched)
+    arrays.append(gen_values(tape, n, dtype="b1"))
+    arrays.append((gen_values(tape, n, dtype="i8", alphabet=[0, 1, 2, 3, 5]) * (86400 * 10**9)).astype("int64").view("M8[ns]"))
     base_chunks = gen_chunks(tape, n, max_blocks=5)
     nops = tape.randint("gen.nops", 3, 8)
     ops = []
@@ -276,12 +279,19 @@ def gen(tape: Tape, tier: str) -> dict:
                 ops.append({"op": "compute", "handles": order})
                 ops.append({"op": "compute", "handles": order[::-1]})
         elif r < 5:
-            ops.append({"op": "call", "api": "groupby_scan", "arr": tape.draw("gen.arr", 3), "lab": tape.draw("gen.lab", 2),
-                        "chunks": [base_chunks], "kwargs": enc_value({"func": tape.choice("gen.scan", ["nancumsum", "ffill", "bfill"])})})
+            def scan_op():
+                ai = tape.choice("gen.scanarr", [0, 1, 2, 4, 5])
+                fn = tape.choice("gen.scan", ["nancumsum", "ffill", "bfill"] if ai != 5 else ["ffill", "bfill"])
+                op = {"op": "call", "api": "groupby_scan", "arr": ai, "lab": tape.draw("gen.lab", 2),
+                      "chunks": [base_chunks], "kwargs": enc_value({"func": fn})}
+                if tape.chance("gen.scan.eager", 0.3):
+                    op["eager"] = True
+                return op
+
+            ops.append(scan_op())
             handles.append(len(ops) - 1)
             if tape.chance("gen.scanpair", 0.6):
-                ops.append({"op": "call", "api": "groupby_scan", "arr": tape.draw("gen.arr", 3), "lab": tape.draw("gen.lab", 2),
-                            "chunks": [base_chunks], "kwargs": enc_value({"func": tape.choice("gen.scan", ["nancumsum", "ffill", "bfill"])})})
+                ops.append(scan_op())
                 handles.append(len(ops) - 1)
                 ops.append({"op": "compute", "handles": [len(ops) - 2, len(ops) - 1]})
         elif r < 6 or r == 12:
